@@ -85,7 +85,12 @@ class Ctx:
         return (snap[0] + np.float32(0)).tobytes() + (snap[1] + np.float32(0)).tobytes() + str(snap[2]).encode()
 
     def iterate(self, rm, losses) -> None:
-        rm.regret_min_iteration(np.array(losses, dtype=np.float64), self.used_actions)
+        """One iteration. An entry None means: that terminal set is NOT listed in used_actions (its loss is then 0 by definition)."""
+        if any(x is None for x in losses):
+            idx = [i for i, x in enumerate(losses) if x is not None]
+            rm.regret_min_iteration(np.array([losses[i] for i in idx], dtype=np.float64), [self.used_actions[i] for i in idx])
+        else:
+            rm.regret_min_iteration(np.array(losses, dtype=np.float64), self.used_actions)
 
     def strategies(self, rm):
         return {m: np.asarray(rm.regret_matching_strategy(int(m)), dtype=np.float64) for m in self.nodes}
@@ -120,7 +125,7 @@ class Ctx:
         return None
 
 
-def step_checks(ctx: Ctx, before, losses) -> str | None:
+def step_checks(ctx: Ctx, before, losses, hist=None) -> str | None:
     """One transition from `before`: orthogonality (plain) / plus-twin relation; leaves ctx.rm in the successor state."""
     rm = ctx.rm
     ctx.restore(before)
@@ -136,7 +141,17 @@ def step_checks(ctx: Ctx, before, losses) -> str | None:
     if int(rm.iteration) != before[2] + 1:
         return f"iteration counter {rm.iteration} after one iteration from {before[2]}"
     after = np.asarray(rm.cumulative_regret, dtype=np.float64)
-    scale = max(1.0, float(np.max(np.abs(after), initial=0)), float(max(losses, default=0)))
+    scale = max(1.0, float(np.max(np.abs(after), initial=0)), float(max((x for x in losses if x is not None), default=0)))
+    if any(x is None for x in losses) and hist is not None:
+        # listing only part of the terminal sets == listing all of them with loss 0 for the others. Both sides are legitimate histories
+        # executed from scratch on fresh objects (whatever an object keeps besides its tables from EARLIER iterations takes part)
+        a, _ = replay_history(ctx.n, ctx.limit, ctx.plus, list(hist) + [losses])
+        b, _ = replay_history(ctx.n, ctx.limit, ctx.plus, list(hist) + [tuple(0 if x is None else x for x in losses)])
+        if not (np.array_equal(a.cumulative_regret, b.cumulative_regret) and np.array_equal(a.cumulative_strategy, b.cumulative_strategy)):
+            return ("an iteration that lists only part of the terminal sets gives other tables than the same iteration with the unlisted sets "
+                    "listed at loss 0 (same earlier iterations, fresh objects)")
+        ctx.restore((a.cumulative_regret, a.cumulative_strategy, int(a.iteration)))     # continue from the from-scratch state
+        after = np.asarray(rm.cumulative_regret, dtype=np.float64)
     if not ctx.plus:
         delta = after - np.asarray(before[0], dtype=np.float64)
         for m in ctx.nodes:
@@ -155,7 +170,13 @@ def step_checks(ctx: Ctx, before, losses) -> str | None:
 def loss_alphabet(ctx: Ctx, small: bool) -> list[tuple]:
     t = len(ctx.terminals)
     if ctx.n == 3:
-        return list(itertools.product((0, 1, 2), repeat=t))
+        full = list(itertools.product((0, 1, 2), repeat=t))
+        part = []
+        if t > 1:
+            for i in range(t):          # only terminal set i listed / all but i listed
+                part += [tuple(x if j == i else None for j in range(t)) for x in (1, 2)]
+                part.append(tuple(None if j == i else 1 + (j % 2) for j in range(t)))
+        return full + part
     out = [tuple([0] * t), tuple([1] * t), tuple(float(A.popcount(ctx.via[min(p for p in range(ctx.noc) if m >> p & 1)])) if m else 0.0
                                                     for m in ctx.terminals)]
     units = range(t) if (not small and t <= 130) else list(range(0, t, max(1, t // 8)))[:8]
@@ -163,6 +184,10 @@ def loss_alphabet(ctx: Ctx, small: bool) -> list[tuple]:
         v = [0] * t
         v[i] = 1
         out.append(tuple(v))
+    for i in list(units)[:4]:        # partial lists: only terminal set i / only the first half
+        out.append(tuple(1 if j == i else None for j in range(t)))
+    if t > 1:
+        out.append(tuple(2 if j < t // 2 else None for j in range(t)))
     seen, res = set(), []
     for v in out:
         if v not in seen:
@@ -222,7 +247,7 @@ def unit(u) -> Stats:
                     continue
                 for losses in alpha:
                     try:
-                        msg = step_checks(ctx, snap, losses)
+                        msg = step_checks(ctx, snap, losses, hist)
                     except Exception as e:  # noqa: BLE001
                         msg = f"regret_min_iteration raised {type(e).__name__}: {e}"
                     st.transitions += 1
@@ -312,7 +337,7 @@ def replay(doc: dict):
     try:
         for i, losses in enumerate(hist):
             snap = ctx.snapshot()
-            m = step_checks(ctx, snap, losses)
+            m = step_checks(ctx, snap, losses, hist[:i])
             if m:
                 msgs.append(f"iteration {i + 1}: {m}")
         m = ctx.invariants(rm)
